@@ -11,6 +11,7 @@ mod report;
 
 fn main() {
     adapter::install_panic_hook();
+    adapter::freeze_default_clock();
     let args: Vec<String> = std::env::args().collect();
     if args.len() < 3 {
         eprintln!("usage: pvmc <Cxx> <quick|thorough> | pvmc <Cxx> --replay <file>");
@@ -42,6 +43,12 @@ fn main() {
 fn dispatch_run(prop: &'static str, tier: &str) -> i32 {
     match prop {
         "C01" | "C02" => props::roundtrip::run(prop, tier),
+        "C03" => props::tamper::run(tier),
+        "C09" => props::nopanic::run(tier),
+        "C04" => props::binding::run_c04(tier),
+        "C05" => props::binding::run_c05(tier),
+        "C06" => props::binding::run_c06(tier),
+        "C07" => props::binding::run_c07(tier),
         _ => report::machinery_error("unknown property"),
     }
 }
@@ -49,6 +56,9 @@ fn dispatch_run(prop: &'static str, tier: &str) -> i32 {
 fn dispatch_replay(prop: &'static str, case: &serde_json::Value) -> i32 {
     match prop {
         "C01" | "C02" => props::roundtrip::replay(prop, case),
+        "C03" => props::tamper::replay(case),
+        "C09" => props::nopanic::replay(case),
+        "C04" | "C05" | "C06" | "C07" => props::binding::replay(prop, case),
         _ => report::machinery_error("unknown property"),
     }
 }
